@@ -794,6 +794,79 @@ var ruleEqAllFields = &Rule{
 					}
 					if meets {
 						obs = append(obs, Ob{Key: key, Site: c.Pos(la[0].Pos()), Verdict: OK, Note: "content of the field of both nodes meets in a comparison"})
+						// a content comparison that runs only when both fields are non-nil leaves "one is nil, the other is not"
+						// to somebody else: a mixed pair of nil tests, a comparison of the two presence flags, or a direct
+						// comparison of the two field values
+						inSet := func(vs []ssa.Value, v ssa.Value) bool {
+							for _, x := range vs {
+								if x == v {
+									return true
+								}
+							}
+							return false
+						}
+						var ta, tb []*ssa.BinOp
+						direct := false
+						for _, b := range f.Blocks {
+							for _, ins := range b.Instrs {
+								bo, ok := ins.(*ssa.BinOp)
+								if !ok || (bo.Op != token.EQL && bo.Op != token.NEQ) {
+									continue
+								}
+								if (inSet(la, bo.X) && inSet(lb, bo.Y)) || (inSet(la, bo.Y) && inSet(lb, bo.X)) {
+									direct = true
+								}
+								if isNilConst(bo.Y) && inSet(la, bo.X) {
+									ta = append(ta, bo)
+								}
+								if isNilConst(bo.Y) && inSet(lb, bo.X) {
+									tb = append(tb, bo)
+								}
+							}
+						}
+						if len(ta) > 0 && len(tb) > 0 && !direct {
+							nCases++
+							mixed := false
+							for _, x := range ta {
+								for _, y := range tb {
+									if x.Op != y.Op {
+										mixed = true
+									}
+								}
+							}
+							for _, b := range f.Blocks {
+								for _, ins := range b.Instrs {
+									if bo, ok := ins.(*ssa.BinOp); ok && (bo.Op == token.EQL || bo.Op == token.NEQ) {
+										isA := func(v ssa.Value) bool {
+											for _, x := range ta {
+												if ssa.Value(x) == v {
+													return true
+												}
+											}
+											return false
+										}
+										isB := func(v ssa.Value) bool {
+											for _, x := range tb {
+												if ssa.Value(x) == v {
+													return true
+												}
+											}
+											return false
+										}
+										if (isA(bo.X) && isB(bo.Y)) || (isA(bo.Y) && isB(bo.X)) {
+											mixed = true
+										}
+									}
+								}
+							}
+							akey := key + ":one-sided-nil"
+							if mixed {
+								obs = append(obs, Ob{Key: akey, Site: c.Pos(ta[0].Pos()), Verdict: OK, Note: "a node with the field and a node without it are told apart"})
+							} else {
+								obs = append(obs, Ob{Key: akey, Site: c.Pos(ta[0].Pos()), Verdict: VIOLATION,
+									Note: fmt.Sprintf("%s compares field %s of two *%s nodes only when both are non-nil and nothing tells a node that has it from one that has not: `obj:m(x)` equals `obj(x)`", f.Name(), fld.Name(), tname)})
+							}
+						}
 					} else {
 						what := "content"
 						if isList {
@@ -1016,14 +1089,6 @@ var ruleScopeS11 = &Rule{
 			if f.Blocks == nil || f.Pkg == nil || f.Pkg.Pkg.Path() != analysisPkg {
 				continue
 			}
-			isCurStore := func(i ssa.Instruction) bool {
-				st, ok := i.(*ssa.Store)
-				if !ok {
-					return false
-				}
-				fa, ok := st.Addr.(*ssa.FieldAddr)
-				return ok && fieldName(fa.X.Type(), fa.Field) == "curScope"
-			}
 			ord := 0
 			for _, b := range f.Blocks {
 				for _, ins := range b.Instrs {
@@ -1054,20 +1119,48 @@ var ruleScopeS11 = &Rule{
 					n++
 					ord++
 					key := fmt.Sprintf("SCOPE/S11:%s:%s#%d", f.Name(), g.Name(), ord)
-					ld, ok := parent.(*ssa.UnOp)
-					var fa *ssa.FieldAddr
-					if ok && ld.Op == token.MUL {
-						fa, _ = ld.X.(*ssa.FieldAddr)
+					// judge: the parent value is curScope as the walker found it; a helper that receives the parent as a
+					// parameter (newSubScope(parent, loc)) is judged at each of its call sites
+					var judge func(fn *ssa.Function, parent ssa.Value, depth int) string
+					judge = func(fn *ssa.Function, parent ssa.Value, depth int) string {
+						if pm, isP := parent.(*ssa.Parameter); isP && depth < 2 {
+							sites, closed := closedCallSites(c, fn)
+							pi := paramIndex(fn, pm)
+							if closed && len(sites) > 0 && pi >= 0 {
+								for _, cs := range sites {
+									if pi >= len(cs.Call.Args) {
+										return "parent scope of the new " + g.Name()[6:] + " is not the value of Analysis.curScope: names of the enclosing block are not found from inside it"
+									}
+									if why := judge(cs.Parent(), cs.Call.Args[pi], depth+1); why != "" {
+										return why
+									}
+								}
+								return ""
+							}
+						}
+						ld, ok := parent.(*ssa.UnOp)
+						var fa *ssa.FieldAddr
+						if ok && ld.Op == token.MUL {
+							fa, _ = ld.X.(*ssa.FieldAddr)
+						}
+						if fa == nil || fieldName(fa.X.Type(), fa.Field) != "curScope" {
+							return "parent scope of the new " + g.Name()[6:] + " is not the value of Analysis.curScope: names of the enclosing block are not found from inside it"
+						}
+						isCur := func(i ssa.Instruction) bool {
+							st, ok := i.(*ssa.Store)
+							if !ok {
+								return false
+							}
+							fa, ok := st.Addr.(*ssa.FieldAddr)
+							return ok && fieldName(fa.X.Type(), fa.Field) == "curScope"
+						}
+						if stale := mayFollow(fn, isCur, func(i ssa.Instruction) bool { return i == ssa.Instruction(ld) }); len(stale) > 0 {
+							return "parent scope is read from Analysis.curScope after this walker has already replaced it"
+						}
+						return ""
 					}
-					if fa == nil || fieldName(fa.X.Type(), fa.Field) != "curScope" {
-						obs = append(obs, Ob{Key: key, Site: c.Pos(call.Pos()), Verdict: VIOLATION,
-							Note: "parent scope of the new " + g.Name()[6:] + " is not the value of Analysis.curScope: names of the enclosing block are not found from inside it"})
-						continue
-					}
-					stale := mayFollow(f, isCurStore, func(i ssa.Instruction) bool { return i == ssa.Instruction(ld) })
-					if len(stale) > 0 {
-						obs = append(obs, Ob{Key: key, Site: c.Pos(call.Pos()), Verdict: VIOLATION,
-							Note: "parent scope is read from Analysis.curScope after this walker has already replaced it"})
+					if why := judge(f, parent, 0); why != "" {
+						obs = append(obs, Ob{Key: key, Site: c.Pos(call.Pos()), Verdict: VIOLATION, Note: why})
 						continue
 					}
 					obs = append(obs, Ob{Key: key, Site: c.Pos(call.Pos()), Verdict: OK, Note: "parent = curScope as found on entry"})
